@@ -465,7 +465,7 @@ func eqMap(a, b map[string]string) bool {
 
 func TestC11_Sequences(t *testing.T) {
 	rec := stats.New(t, "C11", rule)
-	rp.Check(t, 2400, 40000, func(rt *rapid.T) {
+	rp.Check(t, 2400, 400000, func(rt *rapid.T) {
 		c := &Case{Repo: rp.Pick(rt, "repo", "scripted", "scripted", "memory", "oci-layout", "oci-layout"), Format: rp.Pick(rt, "format", envb.MTJWS, envb.MTCOSE),
 			Calls: rapid.IntRange(1, 3).Draw(rt, "calls"), Reopen: rapid.Bool().Draw(rt, "reopen")}
 		switch rp.Pick(rt, "artifactAnnotations", "none", "some", "some", "empty-map") {
